@@ -5,7 +5,7 @@ from checks import lach_common as lc
 
 def run(c):
     # every DAG of the bounded fork model, replayed kept-running, restarted after every event and after every third event
-    ex = lc.run_exhaustive(c, c.pick(["x211f_5"], ["x211f_6", "x31f_7"]), "restart", orders=4, restarts=True)
+    ex = lc.run_exhaustive(c, c.pick(["x211f_5", "corpus:structural", "corpus:frames"], ["x211f_6", "x31f_7", "corpus:structural", "corpus:frames", "corpus:cascade"]), "restart", orders=4, restarts=True)
     c.guard("model_dags_with_forks", ex["total"]["dags_with_forks"])
     res = lc.run_profile(c, "c08", c.pick(10, 80), "restart")
     st = res["stats"]
